@@ -8,7 +8,7 @@ class ErrorIqProtocolEntity(IqProtocolEntity):
     </iq>
     '''
 
-    def __init__(self, _id, _from, code, text, backoff= 0 ):
+    def __init__(self, _id, _from, code, text, backoff = None):
         super(ErrorIqProtocolEntity, self).__init__(xmlns = None, _id = _id, _type = "error", _from = _from)
         self.setErrorProps(code, text, backoff)
 
@@ -16,11 +16,13 @@ class ErrorIqProtocolEntity(IqProtocolEntity):
         self.code = code
         self.text = text
         self.backoff = int(backoff) if backoff else 0
+        # an explicit backoff="0" is part of the stanza, an absent one is not
+        self._hasBackoff = backoff is not None
 
     def toProtocolTreeNode(self):
         node = super(ErrorIqProtocolEntity, self).toProtocolTreeNode()
         errorNode = ProtocolTreeNode("error", {"text": self.text, "code": self.code})
-        if self.backoff:
+        if self.backoff or self._hasBackoff:
             errorNode.setAttribute("backoff", str(self.backoff))
         node.addChild(errorNode)
         return node
